@@ -139,3 +139,11 @@ package proc
 //@   prop C09 C20
 //@   requires l != nil
 //@   modifies all
+
+// ---- C08: the builder registry maps a protocol to the builder registered for it -----------------------------
+
+//@ func RegisterBuilder
+//@   prop C08
+//@   assume builderRegistry != nil
+//@   modifies mapof(builderRegistry)
+//@   ensures @registered-under-its-protocol has(builderRegistry, p) && builderRegistry[p] == b
